@@ -35,6 +35,16 @@ CLAIMED = {
   note="Trusted as C03. Durability across power loss is not modelled (process kills are executed for real).",
   technique="Coq proof (invariant over all schedules and kill points) + checked correspondence under a controlled scheduler",
   ref="5.17"),
+ "C11": dict(
+  text="Coq theorems for EVERY byte string sent as a path: an absolute path or one with a '..' component is refused; every accepted path, its per-process staging name and its conflict-copy name resolve (kernel resolution on a symlink-free tree) inside the served directory; directories on the way are existing ancestors or inside; a refused well-framed request (its Put content drained) is skippable - the session with it equals its error reply followed by the session without it. Tie: generated hostile path strings through real sessions (Get/Put/Delete + probe), refusal verdict compared with the extracted model, every libc file-system call logged by the shim must lie under the served directory, sentinels outside unchanged, differential run without the refused requests.",
+  note="Trusted as C17, plus: Path::components/join as modelled, symlink-free served tree (the property's stated domain), the logging shim.",
+  technique="Coq proof (string-level confinement for all inputs) + checked correspondence with syscall logging",
+  ref="5.18"),
+ "C12": dict(
+  text="Coq theorems for EVERY input byte string, decoder and handler: the read loop terminates (never spins after EOF) with exit 0 or an error; every control-frame buffer it reserves is <= MAX_FRAME = 1 MiB (oversize prefixes rejected before reserving); a bad or short prologue has no effect at all; the tree changes only through the handler of a well-framed decoded request (no reply => no change); a well-framed request with its announced content is consumed exactly, whatever its reply, so the stream stays in step. Tie: real `copia serve` fed generated/mutated byte strings under ulimit -v; exit class, reply stream and final tree compared with the extracted loop model instantiated with the real decoder's verdicts.",
+  note="Trusted as C17, plus: the CBOR decoder is a section variable (validated by hostile-CBOR inputs under a memory limit, not proved); handlers per Model/HubSeq.v.",
+  technique="Coq proof (total function on the whole input; compositional in-step lemma) + checked correspondence",
+  ref="5.19"),
 }
 
 NA_REASON = "check not built yet in this session; see DESIGN.md section 5 for the planned model and theorems"
